@@ -84,7 +84,7 @@ structure ObsEq (a : Arch) (ls : List Line) (r : RefState) (vm : VmState) : Prop
     C02 / C04.) -/
 def C05_full (fix : Bool) : Prop :=
   ∀ (src : Source) (bm : BM), assemble src fix = .ok bm →
-    ∀ (i : Nat) (c : CpDef) (cp : CP), src.cps[i]? = some c → bm.cps[i]? = some cp →
+    ∀ (i : Nat) (c : CpDef) (cp : CP), src.procs[i]? = some c → bm.cps[i]? = some cp →
       ∃ sec ∈ src.sections, sec.name = c.romcode ∧
         ∀ (env : Nat → Env) (t : Nat) (r : RefState), refRun (SecCtx.of src sec) env t = some r →
           ∃ vm, isaRun cp.arch cp.prog env (t + (if fix && !entryFirst sec.lines then 1 else 0)) = some vm ∧
@@ -126,7 +126,7 @@ theorem step_correct (c : SecCtx) (rs : List RLine) (a : Arch) (ws : List Bits) 
     tie of tools/props/c05.py).  Everything else is as in the full statement: every source of the
     subset, every register size, every environment stream, every number of ticks. -/
 theorem assemble_correct_partial (src : Source) (bm : BM) (h : assemble src false = .ok bm)
-    (i : Nat) (c : CpDef) (cp : CP) (hc : src.cps[i]? = some c) (hcp : bm.cps[i]? = some cp) :
+    (i : Nat) (c : CpDef) (cp : CP) (hc : src.procs[i]? = some c) (hcp : bm.cps[i]? = some cp) :
     ∃ sec ∈ src.sections, sec.name = c.romcode ∧
       (entryFirst sec.lines = true → NonBlocking src sec →
         ∀ (env : Nat → Env) (t : Nat) (r : RefState), refRun (SecCtx.of src sec) env t = some r →
